@@ -878,3 +878,219 @@ func c14PayloadReleasedByJob(c *Ctx) {
 		c.Unres(ob, "payload releases next to an Execute hand-over", fmt.Sprintf("found %d, expected >= 2 (handleDataFrame, handleMessage)", n))
 	}
 }
+
+// ---------------------------------------------------------------- C13.O11
+
+// c13ControlNotCounted: a control frame between the fragments of a message is
+// not part of the message: the size pre-check must not add the bytes buffered
+// for the message to a control frame's length.
+func c13ControlNotCounted(c *Ctx) {
+	const ob = "C13.O11"
+	nf := c.Fn(ob, "(*websocket.Conn).nextFrame")
+	if nf == nil {
+		return
+	}
+	key := fnKey(c.P, nf, "buffered message bytes are added to data frames only")
+	d, err := eng.Decide(c.P, nf)
+	if err != nil {
+		c.Unres(ob, key, err.Error())
+		return
+	}
+	var site ssa.Instruction
+	for _, b := range nf.Blocks {
+		for _, in := range b.Instrs {
+			v, ok := in.(ssa.Value)
+			if !ok {
+				continue
+			}
+			if x, isLen := ir.IsLenOf(v); isLen {
+				if ld, ok := ir.IsLoad(ir.Resolve(x)); ok && c.P.LoadedField(ld) == "websocket.Conn.message" {
+					site = in
+				}
+			}
+		}
+	}
+	if site == nil {
+		c.OK(ob, key, c.FnPos(nf), "nextFrame does not read the buffered message's length")
+		return
+	}
+	f := d.Block[site.Block()]
+	leaves := sortedKeys(d.Leaves(f))
+	leaf := ""
+	fixed := eng.Env{}
+	var others []string
+	for _, l := range leaves {
+		switch {
+		case strings.HasSuffix(l, "bytesCached[0]") && leaf == "":
+			leaf = l // the first header byte: FIN, RSV1-3, opcode
+		case strings.HasPrefix(l, "len("):
+			fixed[l] = 64
+		case strings.HasSuffix(l, "bytesCached[1]"):
+			fixed[l] = 5
+		case strings.Contains(l, "Uint64(") || strings.Contains(l, "Uint16("):
+			fixed[l] = 5
+		default:
+			others = append(others, l)
+		}
+	}
+	if leaf == "" {
+		c.Bad(ob, key, c.Pos(site), fmt.Sprintf("the bytes buffered for the message under assembly are added to the declared length of every frame, whatever its opcode (the addition at %s depends on %v only): a ping between two fragments is measured as if it were part of the message, and a legal sequence within the limit (fragment, ping, continuation) is refused with 1009", c.Pos(site), leaves))
+		return
+	}
+	if len(others) > 8 {
+		c.Unres(ob, key, fmt.Sprintf("too many inputs: %v", leaves))
+		return
+	}
+	witness := ""
+	dataOK := false
+	n := 0
+	for _, op := range []int64{0, 1, 2, 8, 9, 10} {
+		for _, fin := range []int64{0, 0x80} {
+			for bits := 0; bits < 1<<uint(len(others)); bits++ {
+				n++
+				env := eng.Env{leaf: fin | op}
+				for k, v := range fixed {
+					env[k] = v
+				}
+				for i, o := range others {
+					env[o] = int64(bits >> uint(i) & 1)
+				}
+				got, err := d.Eval(f, env)
+				if err != nil {
+					c.Unres(ob, key, err.Error())
+					return
+				}
+				if got && op >= 8 && witness == "" {
+					witness = fmt.Sprintf("for opcode %d the bytes buffered for the message under assembly are added to the control frame's length (%s): a ping between two fragments is refused with 1009 although the message is within the limit", op, c.Pos(site))
+				}
+				if got && op < 8 {
+					dataOK = true
+				}
+			}
+		}
+	}
+	if witness == "" && !dataOK {
+		witness = "the buffered length is never added for data frames: fragments could add up beyond the limit"
+	}
+	c.Cond(witness == "", ob, key, c.Pos(site), fmt.Sprintf("evaluated on %d (opcode, flags) points: added for 0/1/2, never for 8/9/10", n), witness)
+}
+
+// ---------------------------------------------------------------- C13.O12
+
+// c13EmptyCompressedMessage: a compressed message may have no payload bytes
+// at all (FIN, RSV1, length 0): the inflate step must not dereference the
+// message buffer, which is only allocated when payload bytes arrive.
+func c13EmptyCompressedMessage(c *Ctx) {
+	const ob = "C13.O12"
+	parse := c.Fn(ob, "(*websocket.Conn).Parse")
+	if parse == nil {
+		return
+	}
+	n := 0
+	for _, f := range append([]*ssa.Function{parse}, ir.Closures(parse)...) {
+		fi := c.P.Info(f)
+		k := 0
+		for _, cs := range c.P.CallsNamed(f, "bytes.NewBuffer") {
+			// the argument is *p with p loaded from a cell or free variable
+			deref, ok := ir.Unconv(cs.Common.Args[0]).(*ssa.UnOp)
+			if !ok || deref.Op != token.MUL {
+				continue
+			}
+			pl, ok := deref.X.(*ssa.UnOp)
+			if !ok || pl.Op != token.MUL {
+				continue
+			}
+			cell := pl.X
+			k++
+			n++
+			key := c.siteKey(f, "inflate input is never a nil buffer", k)
+			// a nil test of the same cell whose nil edge re-assigns the cell before the dereference
+			guarded := false
+			for _, i := range fi.Ifs() {
+				x, _, ok := ir.NilTest(i.Cond, true)
+				if !ok {
+					continue
+				}
+				xl, ok := ir.Unconv(x).(*ssa.UnOp)
+				if !ok || xl.Op != token.MUL || xl.X != cell || !fi.Dominates(i, deref) {
+					continue
+				}
+				_, isNilOnTrue, _ := ir.NilTest(i.Cond, true)
+				edge := 1
+				if isNilOnTrue {
+					edge = 0
+				}
+				vis, _ := fi.ReachFromEdge(i, edge, func(in ssa.Instruction) bool {
+					st, ok := in.(*ssa.Store)
+					if !ok || st.Addr != cell {
+						return false
+					}
+					_, isCall := ir.Resolve(st.Val).(*ssa.Call)
+					return isCall
+				})
+				if !vis[deref] {
+					guarded = true
+				}
+			}
+			c.Cond(guarded, ob, key, c.Pos(cs.In), "nil tested; the nil edge allocates before the dereference",
+				"the message buffer is dereferenced at "+c.Pos(cs.In)+" for the inflate step without a nil test: it is allocated only when payload bytes arrive, so a compressed message with an empty payload (FIN, RSV1, length 0 — a legal frame) panics inside Parse (recovered, the connection is failed with a parse error)")
+		}
+	}
+	if n == 0 {
+		c.Unres(ob, "inflate input", "no bytes.NewBuffer(*message) site found in Parse")
+	}
+}
+
+// ---------------------------------------------------------------- C12.O12
+
+// c12ExactLimitInflates: 'the buffer is full and one more byte would exceed
+// the limit' does not mean the message is too large: it is, only if a further
+// byte follows.  readAll may refuse on the len+1 test only after it has read
+// that byte.
+func c12ExactLimitInflates(c *Ctx) {
+	const ob = "C12.O12"
+	ra := c.Fn(ob, "(*websocket.Conn).readAll")
+	if ra == nil {
+		return
+	}
+	fi := c.P.Info(ra)
+	key := fnKey(c.P, ra, "a message of exactly the limit is not refused")
+	n := 0
+	bad := ""
+	for _, cs := range c.P.CallsNamed(ra, "(*websocket.Conn).isMessageTooLarge") {
+		b, ok := ir.Resolve(cs.Common.Args[1]).(*ssa.BinOp)
+		if !ok || b.Op != token.ADD {
+			continue
+		}
+		if k, isK := ir.ConstInt(b.Y); !isK || k != 1 {
+			continue
+		}
+		for _, i := range usedAsCond(cs.Value()) {
+			n++
+			vis, _ := fi.ReachFromEdge(i, edgeOf(i, cs.Value(), true), nil)
+			for x := range vis {
+				r, isR := x.(*ssa.Return)
+				if !isR || !ir.IsNilConst(ir.RetVals(r)[0]) {
+					continue
+				}
+				// a refusal: only after a read, made behind this test, delivered a byte
+				sawByte := fi.HasFact(r, func(ft ir.Fact) bool {
+					cmp, ok := ir.DecodeIntCmp(ft.Cond)
+					if !ok || cmp.Holds(1) != ft.Truth || cmp.Holds(0) == ft.Truth {
+						return false
+					}
+					e, ok := ir.Resolve(cmp.Expr).(*ssa.Extract)
+					if !ok || e.Index != 0 {
+						return false
+					}
+					call, ok := e.Tuple.(*ssa.Call)
+					return ok && call.Call.IsInvoke() && call.Call.Method.Name() == "Read" && fi.Dominates(i, call)
+				})
+				if !sawByte {
+					bad = "readAll refuses the message at " + c.Pos(r) + " because its buffer is full and one more byte would exceed the limit, without having read that byte: a compressed message that inflates to exactly MessageLengthLimit is refused with 1009 whenever the pooled buffer's capacity equals the limit (observed for limits 1024 and 32768)"
+				}
+			}
+		}
+	}
+	c.Cond(bad == "" && n > 0, ob, key, c.FnPos(ra), fmt.Sprintf("%d len+1 test(s): refusal only after a further byte was read", n), bad)
+}
